@@ -146,7 +146,7 @@ def make_scenario(idx, mode, path, moment, entry, delay=None):
 
 def case_of(sc):
     c = {k: sc[k] for k in ("mode", "path", "moment", "entry", "delay")}
-    for k in ("backlog", "burst", "reuse", "enter_deadline", "polls"):
+    for k in ("backlog", "burst", "reuse", "enter_deadline", "polls", "stall"):
         if sc.get(k):
             c[k] = sc[k]
     return c
@@ -199,6 +199,15 @@ def gen_scenarios(ctx):
         for path in ("normal", "cancel_scope"):
             sc = make_scenario(len(scs), mode, path, moment, rng.choice(ENTRIES))
             sc["polls"] = 130
+            scs.append(sc)
+    # the host's event loop stalls for 3 s, from 0.3 s into the exit (inside the first grace period) to after BOTH grace
+    # periods would have ended: the exit may take the stall longer, but the child is still terminated, killed and reaped
+    for mode in ("ignore_term", "well", "never_reads_ign"):
+        for path in ("normal", "cancel_scope", "timeout_task"):
+            if path not in PATHS:
+                continue
+            sc = make_scenario(len(scs), mode, path, "before", rng.choice(ENTRIES))
+            sc["stall"] = [0.3, 3.0]
             scs.append(sc)
     # the same StdioClient object used for a second conversation
     for mode in ("well", "ignore_term", "floods"):
@@ -332,7 +341,8 @@ def evaluate(scs, results, model, spec, variant):
         if r["dur"] is None or r["pid"] is None:
             v["problem"] = "no duration / no child observed"
             continue
-        ticks = max(0, int(math.ceil(r["dur"] * 100 - 1e-6)))
+        dur = r["dur"] - (sc["stall"][1] if sc.get("stall") else 0.0)       # the host's own stall is not the library's time
+        ticks = max(0, int(math.ceil(dur * 100 - 1e-6)))
         spec_reqs.append(call(0, str(ticks), "(%d)" % STATE_CODE[r["state"]], str(r["fd_after"] - r["fd_before"])))
         spec_keys.append((v, "exit"))
         if r.get("polls"):
@@ -408,7 +418,9 @@ def evaluate(scs, results, model, spec, variant):
                 if impl[k] != mod[k]:
                     v["mismatches"].append((k, impl[k], mod[k]))
             lo, hi = m["dur"] / 100.0 - LOW_SLACK, m["dur"] / 100.0 + HIGH_SLACK
-            if not (lo <= r["dur"] <= hi):
+            if sc.get("stall"):
+                pass            # timers fire late by the host's stall: the model's clock does not apply, the outcome does
+            elif not (lo <= r["dur"] <= hi):
                 v["mismatches"].append(("duration", round(r["dur"], 3), m["dur"] / 100.0))
             # the requests
             for which in ("first", "pending"):
@@ -588,7 +600,7 @@ def replay(ctx, data):
             scs = [s for s in gen_spawn(tmp, 0) if s["spawn"] == case["spawn"] and s["entry"] == case["entry"]]
         else:
             scs = [make_scenario(0, case["mode"], case["path"], case["moment"], case["entry"], case.get("delay") or None)]
-            for k in ("backlog", "burst", "reuse", "enter_deadline", "polls"):
+            for k in ("backlog", "burst", "reuse", "enter_deadline", "polls", "stall"):
                 if case.get(k):
                     scs[0][k] = case[k]
         fails = 0
